@@ -1,1 +1,73 @@
+(* C07 -- rule order and containment stay valid under any edit history.
+   Statements over the model CssV.Order (step / run), whose tables are regenerated from /repo on every run. *)
 From CssV Require Import Base Order OrderFacts.
+From CssV.Gen Require Import Kinds.
+
+(* after ANY sequence of operations (insertRule/add with text or object, deleteRule, namespaces[p]=u / del,
+   encoding=, cssText=, and the same on @media/@page rules), in both log.raiseExceptions modes, whether each call
+   succeeds or is rejected, the sheet is valid.  op_ok only asks that a rule OBJECT handed to insertRule is itself a
+   well-built container (its own children respect its tables). *)
+Theorem order_invariant : forall rx ops, Forall op_ok ops -> valid_sheet (run rx ops []) = true.
+Proof. exact order_invariant_main. Qed.
+Print Assumptions order_invariant.
+
+(* the same in the words of the property: @charset only first; every @import before any @namespace; both before
+   any style/@media/@page/@font-face rule; no child kind that its container refuses *)
+Theorem order_invariant_statement : forall rx ops, Forall op_ok ops -> ValidOrderStatement (run rx ops []).
+Proof. exact order_invariant_statement_main. Qed.
+Print Assumptions order_invariant_statement.
+
+(* the one-step preservation lemma behind the induction *)
+Theorem step_preserves : forall rx rs o, op_ok o -> valid_sheet rs = true -> valid_sheet (fst (step rx rs o)) = true.
+Proof. exact step_preserves_main. Qed.
+Print Assumptions step_preserves.
+
+(* every insertion position insertRule accepts keeps the order (all branches, inOrder or not) *)
+Theorem place_keeps_order : forall ks k idx io i,
+  valid_kinds ks = true -> idx <= length ks -> place ks k idx io = PInsert i ->
+  i <= length ks /\ valid_kinds (insert_at i k ks) = true.
+Proof. exact place_valid. Qed.
+Print Assumptions place_keeps_order.
+
+(* the parser's expected-state machine accepts a valid kind list unchanged ... *)
+Theorem valid_reparse : forall ks, valid_kinds ks = true -> accept_kinds ks = ks.
+Proof. exact valid_reparse_main. Qed.
+Print Assumptions valid_reparse.
+
+(* ... hence the rule kinds of every reachable sheet are read back unchanged *)
+Theorem history_reparse : forall rx ops, Forall op_ok ops -> accept_kinds (kinds (run rx ops [])) = kinds (run rx ops []).
+Proof. exact history_reparse_main. Qed.
+Print Assumptions history_reparse.
+
+(* FULL STATEMENT (false on the current tree, see rejected_unchanged_refuted):
+     forall rx rs o rs' res, step rx rs o = (rs', res) -> rejected o res = true -> rs' = rs.
+   Proved: it holds for every operation and outcome except when _cleanNamespaces raises
+   NoModificationAllowedErr at the end of an insertion / namespaces[p]=u / cssText= (open finding
+   C07-namespace-clean-raises). *)
+Theorem rejected_unchanged_partial : forall rx rs o rs' res,
+  step rx rs o = (rs', res) -> rejected o res = true ->
+  (ends_in_clean o = true -> res <> Exc NoModificationAllowedErr) -> rs' = rs.
+Proof. exact rejected_unchanged_main. Qed.
+Print Assumptions rejected_unchanged_partial.
+
+Theorem rejected_unchanged_refuted :
+  exists rx rs o, valid_sheet rs = true /\ op_ok o /\ rejected o (snd (step rx rs o)) = true /\ fst (step rx rs o) <> rs.
+Proof. exact rejected_unchanged_refuted_main. Qed.
+Print Assumptions rejected_unchanged_refuted.
+
+(* non-vacuity *)
+Example history_nontrivial : Forall op_ok demo_ops /\
+  kinds (run true demo_ops []) = [CHARSET_RULE; COMMENT; IMPORT_RULE; NAMESPACE_RULE; VARIABLES_RULE; STYLE_RULE].
+Proof. exact (conj demo_ops_ok demo_run). Qed.
+
+Example a_rejected_call :
+  step true (run true (firstn 5 demo_ops) []) (Ins (Text [P IMPORT_RULE]) (Some 5%Z) false)
+  = (run true (firstn 5 demo_ops) [], Exc HierarchyRequestErr).
+Proof. exact demo_rejected. Qed.
+
+Example a_valid_list : valid_kinds [CHARSET_RULE; COMMENT; IMPORT_RULE; UNKNOWN_RULE; NAMESPACE_RULE; VARIABLES_RULE;
+                                    MARGIN_RULE; STYLE_RULE; COMMENT; MEDIA_RULE; PAGE_RULE; FONT_FACE_RULE] = true.
+Proof. exact demo_valid_list. Qed.
+
+Example an_invalid_list_is_not_read_back : accept_kinds [COMMENT; NAMESPACE_RULE; IMPORT_RULE] = [COMMENT; NAMESPACE_RULE].
+Proof. exact demo_invalid_list. Qed.
